@@ -14,7 +14,7 @@ Local Notation exec_stmt := (ValidationSkel.exec_stmt I E atom coll call i).
 Local Notation exec_list := (ValidationSkel.exec_list I E atom coll call i).
 
 Fixpoint for_loop (b : list stmt) (es : list E) (st : list E) : flow :=
-  match es with [] => FNext | e :: r => fseq (exec_list b (e :: st)) (for_loop b r st) end.
+  match es with [] => FNext | e :: r => fseq (uncont (exec_list b (e :: st))) (for_loop b r st) end.
 Fixpoint any_loop (a : gexp) (es : list E) (st : list E) : option bool :=
   match es with
   | [] => Some false
@@ -33,7 +33,7 @@ Lemma exec_for h b st :
   exec_stmt (SFor h b) st = match coll h i st with None => FCrashed | Some es => for_loop b es st end.
 Proof.
   simpl. destruct (coll h i st) as [es|]; [|reflexivity].
-  induction es as [|e r IH]; [reflexivity|]. simpl. rewrite IH. f_equal. apply go_eq.
+  induction es as [|e r IH]; [reflexivity|]. simpl. rewrite IH. do 2 f_equal. apply go_eq.
 Qed.
 Lemma eval_any v c a st :
   eval (GAny v c a) st = match coll c i st with None => None | Some es => any_loop a es st end.
@@ -69,11 +69,6 @@ Qed.
 End ExecP.
 
 (* ---------- simulate_statevector_outcomes ---------- *)
-Definition sk_simulate : list stmt :=
-  [SFor "inst in qc.data"
-     [SIf (GAtom "inst.operation.condition_bits") [SRaise] [];
-      SIf (GAtom "opname in ('measure', 'reset')") []
-        [SIf (GAtom "len(inst.clbits) != 0") [SRaise] []]]; SReturn].
 Lemma skel_simulate : forall i, run_simulate sk_simulate i = api_simulate i.
 Proof.
   intro i. unfold run_simulate, run, sk_simulate, api_simulate. rewrite exec_cons, exec_for.
@@ -89,22 +84,6 @@ Lemma existsb_map_comp {A B} (f : B -> bool) (g : A -> B) l : existsb f (map g l
 Proof. induction l as [|x r IH]; [reflexivity|]. simpl. now rewrite IH. Qed.
 
 (* ---------- reconstruct_expectation_values ---------- *)
-Definition sk_reconstruct : list stmt :=
-  [SIf (GAtom "isinstance(observables, PauliList)")
-     [SIf (GNot (GAtom "isinstance(results, (SamplerResult, PrimitiveResult))")) [SRaise] [];
-      SIf (GAny "obs" "observables" (GAtom "obs.phase != 0")) [SRaise] [];
-      SCall "decompose_observables"]
-     [SIf (GAtom "isinstance(observables, Mapping)")
-        [SIf (GNot (GAtom "isinstance(results, Mapping)")) [SRaise] [];
-         SIf (GAtom "observables.keys() != results.keys()") [SRaise] [];
-         SFor "(label, subobservable) in observables.items()"
-           [SIf (GAny "obs" "subobservable" (GAtom "obs.phase != 0")) [SRaise] []]]
-        [SRaise]];
-   SFor "(label, so) in subsystem_observables.items()"
-     [SIf (GAtom "len(current_result) != len(coefficients) * len(so.groups)") [SRaise] []];
-   SReturn].
-
-Local Notation rc_exec_list := (ValidationSkel.exec_list rec_in rc_elem rc_atom rc_coll rc_call).
 Local Notation rc_eval := (ValidationSkel.eval rec_in rc_elem rc_atom rc_coll).
 
 Lemma rc_any_phase i c (l : list nat) st :
@@ -175,22 +154,6 @@ Proof.
 Qed.
 
 (* ---------- partition_problem ---------- *)
-Definition sk_partition_problem : list stmt :=
-  [SIf (GAnd (GAtom "partition_labels is not None") (GAtom "len(partition_labels) != circuit.num_qubits")) [SRaise] [];
-   SIf (GAnd (GAtom "observables is not None") (GAny "obs" "observables" (GAtom "len(obs) != circuit.num_qubits")))
-     [SRaise] [];
-   SIf (GAnd (GAtom "observables is not None") (GAny "obs" "observables" (GAtom "obs.phase != 0"))) [SRaise] [];
-   SIf (GOr (GAtom "len(circuit.cregs) != 0") (GAtom "circuit.num_clbits != 0")) [SRaise] [];
-   SIf (GAtom "partition_labels is None") [SCall "_partition_labels_from_circuit"] [];
-   SCall "partition_circuit_qubits"; SCall "separate_circuit";
-   SIf (GAtom "observables")
-     [SCall "decompose_observables";
-      SIf (GAnd (GAtom "idle_observables is not None")
-             (GAny "obs" "idle_observables" (GOr (GAtom "obs.x.any()") (GAtom "obs.z.any()")))) [SRaise] []] [];
-   SReturn].
-(* the abstraction is well formed: one support entry per observable *)
-Definition pp_wf (i : pp_in) : Prop :=
-  match pp_obs i with Some o => length (pp_support i) = length o | None => True end.
 
 Local Notation pp_eval := (ValidationSkel.eval pp_in pp_elem pp_atom pp_coll).
 
@@ -214,12 +177,12 @@ Proof.
   - intros x Hx. apply in_map_iff in Hx as [sup [<- _]]. rewrite eval_or, !eval_atom. cbn.
     destruct (existsb _ sup); reflexivity.
 Qed.
-Lemma skel_partition_problem : forall i, pp_wf i -> run_partition_problem sk_partition_problem i = api_partition_problem i.
+Lemma skel_partition_problem : forall i, run_partition_problem sk_partition_problem i = api_partition_problem i.
 Proof.
-  intros i Hwf. unfold run_partition_problem, run, sk_partition_problem, api_partition_problem.
+  intros i. unfold run_partition_problem, run, sk_partition_problem, api_partition_problem.
   repeat progress (rewrite ?exec_cons, ?exec_if, ?exec_call, ?eval_and, ?eval_or, ?eval_atom).
   rewrite pp_any_idle.
-  unfold pp_wf in Hwf. unfold pp_support_eff, pp_eff_labels.
+  unfold pp_support_eff, pp_eff_labels.
   destruct (pp_obs i) as [o|] eqn:Ho.
   - rewrite (pp_any_obs i o "len(obs) != circuit.num_qubits" (fun p => negb (fst p =? pp_nq i)%nat) Ho); [|reflexivity].
     rewrite (pp_any_obs i o "obs.phase != 0" (fun p => negb (snd p =? 0)%nat) Ho); [|reflexivity].
@@ -233,14 +196,14 @@ Proof.
       destruct (pcq_loop l (pp_insts i)) as [[]| |]; cbn; try reflexivity.
       destruct (none_label_used l (pp_insts i)); cbn; [reflexivity|].
       destruct o as [|p r]; cbn.
-      * destruct (pp_support i); [reflexivity | discriminate].
+      * reflexivity.
       * destruct (idle_observable l (pp_support i)); reflexivity.
     + destruct (existsb (fun p => negb (fst p =? pp_nq i)%nat) o); cbn; [reflexivity|].
       destruct (existsb (fun p => negb (snd p =? 0)%nat) o); cbn; [reflexivity|].
       destruct (negb (pp_ncregs i =? 0)%nat); cbn; [reflexivity|].
       destruct (negb (pp_nclbits i =? 0)%nat); cbn; [reflexivity|].
       destruct o as [|p r]; cbn.
-      * destruct (pp_support i); [reflexivity | discriminate].
+      * reflexivity.
       * destruct (idle_observable _ (pp_support i)); reflexivity.
   - unfold pp_atom, pp_call. cbn [String.eqb Ascii.eqb Bool.eqb]. rewrite Ho. unfold has_clbits.
     destruct (pp_labels i) as [l|] eqn:Hl; cbn [is_none negb].
